@@ -146,8 +146,10 @@ def stepA (id : String) (inp obs : List String) : String :=
     let outs := reqs.map fun (f, p, m) => (f, m, serve f p)
     let tele := outs.foldl (fun t (_, _, o) => t.run o.log) ({} : Tele)
     let liveOuts := outs.filter fun (f, _, _) => f.obs && f.live
-    let expect : List SpanObs := liveOuts.filterMap fun (_, m, o) =>
-      (modelLabel o).map fun l => ⟨m ++ " ".toList ++ l, errOf o.status, o.status, o.size⟩
+    -- app/observability.go renames the span only when the label is non-empty (the empty pattern `GET ""`
+    -- keeps the start name METHOD + " " + path)
+    let expect : List SpanObs := liveOuts.filterMap fun (f, m, o) =>
+      (modelLabel o).map fun l => ⟨m ++ " ".toList ++ (if l = [] then f.path else l), errOf o.status, o.status, o.size⟩
     let expectRows : List Row := liveOuts.foldl (fun rows (_, _, o) =>
       match modelLabel o with
       | some l => addRow rows (routeAttr l) o.status o.size
@@ -158,7 +160,9 @@ def stepA (id : String) (inp obs : List String) : String :=
     let allLabels := pats ++ sentinels
     let s := h.started == h.ended && h.active == 0 && h.spans.length == liveOuts.length &&
       h.spans.all (fun sp => sp.err == errOf sp.clientStatus &&
-        (methods.any fun m => allLabels.any fun l => sp.name == m ++ " ".toList ++ l)) &&
+        (methods.any fun m => (allLabels.any fun l => sp.name == m ++ " ".toList ++ l) ||
+          -- a registered empty pattern only ever matches the root path, whose canonical pattern is "/"
+          (pats.contains [] && sp.name == m ++ " /".toList))) &&
       h.rows.all (fun r => labelOK pats r.route) &&
       (h.rows.foldl (fun n r => n + r.count) 0) == liveOuts.length &&
       (h.rows.foldl (fun n r => n + r.size) 0) == (h.spans.foldl (fun n sp => n + sp.clientSize) 0) &&
